@@ -18,7 +18,7 @@ MATRIX_MON = {"mon_matrix": {"sources": ["mon_matrix.c", "vf.c"]}}
 
 FILTER_MON = {"mon_filter": {"sources": ["mon_filter.c", "vf.c"]}}
 
-C01_MON = {"mon_c01": {"sources": ["mon_c01.c", "ref_pixel.c", "ref_ops.c", "vf.c"]}}
+C01_MON = {"mon_c01": {"sources": ["mon_c01.c", "vf_req.c", "ref_pixel.c", "ref_ops.c", "vf.c"]}}
 GENERAL_ONLY = {"PIXMAN_DISABLE": "fast mmx sse2 ssse3"}
 
 CHAIN_MON = {"mon_chain": {"sources": ["mon_chain.c", "vf_req.c", "ref_pixel.c", "vf.c"]}}
@@ -156,13 +156,17 @@ PROPS = {
     ),
     "C04": dict(
         level="exploration", monitors={"mon_chain": CHAIN_MON["mon_chain"], "mon_trap": {"sources": ["mon_trap.c", "vf_req.c", "ref_pixel.c", "ref_ops.c", "vf.c"]},
-                                       "mon_blt": {"sources": ["mon_blt.c", "vf_req.c", "ref_pixel.c", "ref_ops.c", "vf.c"]}},
+                                       "mon_blt": {"sources": ["mon_blt.c", "vf_req.c", "ref_pixel.c", "ref_ops.c", "vf.c"]},
+                                       "mon_c08": {"sources": ["mon_c08.c", "vf_req.c", "ref_pixel.c", "vf.c"]}},
         runs=[dict(name="asan-default-hostile", monitor="mon_chain", flavour="asan", config="hostile-default", cases={"quick": 24000, "thorough": 600000}),
               dict(name="asan-c-only-hostile", monitor="mon_chain", flavour="asan", config="hostile-c-only", env={"PIXMAN_DISABLE": "mmx sse2 ssse3"}, cases={"quick": 12000, "thorough": 300000}),
               dict(name="asan-general-hostile", monitor="mon_chain", flavour="asan", config="hostile-general", env={"PIXMAN_DISABLE": "fast mmx sse2 ssse3"}, cases={"quick": 12000, "thorough": 300000}),
               dict(name="asan-wholeops-hostile", monitor="mon_chain", flavour="asan", config="hostile-wholeops", env={"PIXMAN_DISABLE": "wholeops"}, cases={"quick": 12000, "thorough": 300000}),
               dict(name="asan-mmx-top", monitor="mon_chain", flavour="asan", config="hostile-mmx", env={"PIXMAN_DISABLE": "sse2 ssse3"}, cases={"quick": 8000, "thorough": 300000}),
               dict(name="asan-no-ssse3", monitor="mon_chain", flavour="asan", config="hostile-no-ssse3", env={"PIXMAN_DISABLE": "ssse3"}, cases={"quick": 8000, "thorough": 300000}),
+              dict(name="sampling-asan", monitor="mon_c08", flavour="asan", cases={"quick": 6000, "thorough": 200000}),
+              dict(name="sampling-guards", monitor="mon_c08", flavour="plain", cases={"quick": 20000, "thorough": 600000}),
+              dict(name="sampling-guards-c-only", monitor="mon_c08", flavour="plain", config="c-only", env={"PIXMAN_DISABLE": "mmx sse2 ssse3"}, cases={"quick": 8000, "thorough": 300000}),
               dict(name="fills-asan", monitor="mon_blt", flavour="asan", config="default", cases={"quick": 3000, "thorough": 100000}),
               dict(name="fills-guards", monitor="mon_blt", flavour="plain", config="default", cases={"quick": 6000, "thorough": 200000}),
               dict(name="traps-asan", monitor="mon_trap", flavour="asan", config="hostile", cases={"quick": 4000, "thorough": 200000}),
